@@ -665,7 +665,7 @@ pub fn dispatch(a: &Args, replay: Option<(Vec<String>, String)>) -> ! {
                 let (scale2, ranges2) = alphabet(lo2, hi2);
                 let s1: SSys<$t> = SSys { lo, hi, scale, ranges: ranges.clone(), emax: a.num("emax", 2) as u8, tmax: a.num("t", 2) as u8, pop: a.num("pop", 2) as usize, f: f.clone(), prop: a.prop(), inj_budget: a.num("inject", 0) as u32, _p: PhantomData };
                 let s2: SSys<$t> = SSys { lo: lo2, hi: hi2, scale: scale2, ranges: ranges2, emax: a.num("emax", 2) as u8, tmax: a.num("t", 2) as u8, pop: a.num("pop", 2) as usize, f: f.clone(), prop: a.prop(), inj_budget: a.num("inject", 0) as u32, _p: PhantomData };
-                let p = crate::pair::PairSys { a: s1, b: s2, symmetric: (lo2, hi2) == (lo, hi) };
+                let p = crate::pair::PairSys { a: s1, b: s2, symmetric: (lo2, hi2) == (lo, hi), deep_queries: a.num("pair-deep-queries", 0) > 0 };
                 match &replay {
                     None => run_bfs(p, a),
                     Some((h, sig)) => run_replay(p, a, h, sig),
